@@ -295,7 +295,7 @@ Fixpoint emb_fine (ovr : str -> bool) (t : gtype) : bool :=
          | [] => true
          | (fi, ty) :: r =>
              (if fi_embedded fi
-              then negb (ovr (type_name ty)) &&
+              then negb (ovr (type_name (strip_ptr1 ty))) &&
                    (fi_exported fi || negb (fi_hastag fi && is_valid_tag (tag_name (fi_tag fi)))) &&
                    emb_fine ovr ty
               else true) && go r
@@ -305,7 +305,7 @@ Fixpoint emb_fine (ovr : str -> bool) (t : gtype) : bool :=
 
 Lemma emb_fine_fields ovr t fi ty :
   emb_fine ovr t = true -> In (fi, ty) (struct_fields t) -> fi_embedded fi = true ->
-  ovr (type_name ty) = false /\ (fi_exported fi || negb (fi_hastag fi && is_valid_tag (tag_name (fi_tag fi)))) = true /\ emb_fine ovr ty = true.
+  ovr (type_name (strip_ptr1 ty)) = false /\ (fi_exported fi || negb (fi_hastag fi && is_valid_tag (tag_name (fi_tag fi)))) = true /\ emb_fine ovr ty = true.
 Proof.
   induction t; cbn [emb_fine struct_fields]; intros He Hin Hfe; try contradiction; auto.
   revert He Hin. induction fs as [|[fj tj] r IHr]; intros He Hin; [contradiction|].
@@ -340,7 +340,7 @@ Section Ext.
     apply combine_seq_nth in Hin as [_ Hn]. rewrite Nat.sub_0_r in Hn. apply nth_error_In in Hn.
     destruct (fi_embedded fi) eqn:Hfe.
     - destruct (emb_fine_fields ovr t0 fi ty He Hn Hfe) as (Hov & Hex & Hef).
-      rewrite Hov, !andb_false_r.
+      unfold strip_ptr1 in Hov. rewrite Hov, !andb_false_r.
       destruct (negb (fi_exported fi) && _) eqn:Esk; [split; [reflexivity|split; assumption]|].
       destruct (fi_hastag fi && str_eqb (fi_tag fi) (lit "-"%lit)); [split; [reflexivity|split; assumption]|].
       match goal with |- context [if (?a || ?b || ?c || ?d) then _ else _] => destruct (a || b || c || d) eqn:Ec end.
